@@ -718,3 +718,433 @@ PKL = Unit('C14', 'taurex.opacity.pickleopacity:PickleOpacity._load_pickle_file'
            doc='the pickle reader: wavenumbers, temperatures, cross-sections are the entries wno / t / xsecarr of the stored dictionary, pressures '
                'the entry p converted from bar to pascal, ranges the extremes of the grids, the molecule named after the file (open / '
                'pickle.load / allocate_as_shared / pathlib abstract)')
+
+
+# ------------------------------------------------------------------ PickleKTable._load_pickle_file: the k-table pickle reader
+_KT_ATTRS = ('_spec_dict', '_wavenumber_grid', '_ngauss', '_temperature_grid', '_pressure_grid', '_xsec_grid', '_weights', '_molecule_name',
+             '_min_pressure', '_max_pressure', '_min_temperature', '_max_temperature')
+
+
+def _pkk_params(c):
+    W, NT, NP, G = c.int('W'), c.int('NT'), c.int('NP'), c.int('G')
+    return dict(self=ObjSpec('PickleKTable', **{a: None for a in _KT_ATTRS}), filename='ktables/H2O_R100.pickle',
+                _file=dict(bin_centers=c.array('wno', (W,)), ngauss=G, t=c.array('t', (NT,)), p=c.array('p', (NP,)),
+                           kcoeff=c.array('ks', (NP, NT, W, G)), weights=c.array('wt', (G,)), name='H2O_R100'))
+
+
+def _same_cell(c, v1, attr, key):
+    heap = c.raw['state'].heap
+    return heap[v1.self.ref(attr).id] is heap[heap[c.raw['env']['_file'].id].items[key].id]
+
+
+def _pkk_post(c, v0, v1, r):
+    f = v0._file
+    s = v1.self
+    NT, NP = c.Len(f['t']), c.Len(f['p'])
+    ev = [tuple(e) for e in (c.trace or []) if e[0] in ('open', 'pickle.load')]
+    d = {'reads_the_named_file_once': ev == [('open', v0.filename, 'rb'), ('pickle.load', v0.filename)] if c.mode != 'conc' else True,
+         'pressures_are_the_p_entry_converted_from_bar_to_pascal': c.And(c.Len(s._pressure_grid) == NP,
+                                                                           c.Forall(0, NP, lambda i: c.Eq(s._pressure_grid[i], f['p'][i] * 1e5))),
+         'molecule_is_the_name_entry_up_to_the_first_underscore': s._molecule_name == 'H2O'}
+    if c.mode == 'sym':
+        d['wavenumbers_are_the_bin_centers_entry'] = _same_cell(c, v1, '_wavenumber_grid', 'bin_centers')
+        d['temperatures_are_the_t_entry'] = _same_cell(c, v1, '_temperature_grid', 't')
+        d['coefficients_are_the_kcoeff_entry'] = _same_cell(c, v1, '_xsec_grid', 'kcoeff')
+        d['weights_are_the_weights_entry'] = _same_cell(c, v1, '_weights', 'weights')
+        d['quadrature_size_is_the_ngauss_entry'] = c.Eq(s._ngauss, f['ngauss'])
+        d['ranges_are_the_extremes_of_the_grids'] = c.And(
+            c.Forall(0, NP, lambda i: c.And(s._min_pressure <= s._pressure_grid[i], s._pressure_grid[i] <= s._max_pressure)),
+            c.Forall(0, NT, lambda i: c.And(s._min_temperature <= f['t'][i], f['t'][i] <= s._max_temperature)))
+    else:
+        W, G = c.Len(f['bin_centers']), c.Len(f['weights'])
+        d['wavenumbers_are_the_bin_centers_entry'] = c.And(c.Len(s._wavenumber_grid) == W, c.Forall(0, W, lambda i: s._wavenumber_grid[i] == f['bin_centers'][i]))
+        d['temperatures_are_the_t_entry'] = c.And(c.Len(s._temperature_grid) == NT, c.Forall(0, NT, lambda i: s._temperature_grid[i] == f['t'][i]))
+        d['weights_are_the_weights_entry'] = c.And(c.Len(s._weights) == G, c.Forall(0, G, lambda i: s._weights[i] == f['weights'][i]))
+        d['quadrature_size_is_the_ngauss_entry'] = s._ngauss == f['ngauss']
+        d['coefficients_are_the_kcoeff_entry'] = s._xsec_equal
+    return d
+
+
+def _pkk_native(c, p):
+    import os
+    import pickle
+    import numpy as np
+    from taurex.opacity.ktables.picklektable import PickleKTable
+    f = p['_file']
+    here = os.path.dirname(os.path.dirname(os.path.abspath(__file__)))
+    base = os.path.join(here, '.cache', 'c14')
+    os.makedirs(os.path.join(base, 'ktables'), exist_ok=True)
+    path = os.path.join(base, p['filename'])
+    stored = {k: (np.array(v, dtype=float) if isinstance(v, list) else v) for k, v in f.items()}
+    with open(path, 'wb') as fh:
+        pickle.dump(stored, fh)
+    try:
+        o = PickleKTable.__new__(PickleKTable)
+        for nm in ('debug', 'info', 'warning', 'error', 'critical'):
+            setattr(o, nm, lambda *a, **k: None)
+        o._load_pickle_file(path)
+    finally:
+        os.remove(path)
+    s = dict(p['self'], _wavenumber_grid=np.asarray(o._wavenumber_grid), _temperature_grid=np.asarray(o._temperature_grid),
+             _pressure_grid=np.asarray(o._pressure_grid), _weights=np.asarray(o._weights), _ngauss=int(o._ngauss), _molecule_name=o._molecule_name,
+             _xsec_equal=bool(np.array_equal(np.asarray(o._xsec_grid), stored['kcoeff'])))
+    return None, dict(p, self=s)
+
+
+def _pkk_gen(rng):
+    W, NT, NP, G = rng.randint(2, 4), rng.randint(1, 3), rng.randint(1, 3), rng.randint(1, 3)
+    return dict(W=W, NT=NT, NP=NP, G=G, wno=sorted(rng.uniform(100, 9000) for _ in range(W)), t=sorted(rng.uniform(100, 3000) for _ in range(NT)),
+                p=sorted(10 ** rng.uniform(-6, 2) for _ in range(NP)), wt=[rng.uniform(0.1, 1) for _ in range(G)],
+                ks=[[[[10 ** rng.uniform(-30, -18) for _ in range(G)] for _ in range(W)] for _ in range(NT)] for _ in range(NP)])
+
+
+PKK = Unit('C14', 'taurex.opacity.ktables.picklektable:PickleKTable._load_pickle_file', _pkk_params,
+           pre=lambda c, v: {'sizes': c.And(c.Len(v._file['bin_centers']) >= 1, c.Len(v._file['t']) >= 1, c.Len(v._file['p']) >= 1, c.Len(v._file['weights']) >= 1)},
+           post=_pkk_post, abstract={'call:open': _h_open, 'call:load': _h_pickle_load},
+           frame_attrs=[('self', a) for a in _KT_ATTRS], inline=['clean_molecule_name', 'moleculeName'], native=_pkk_native, gen=_pkk_gen,
+           bounds=[dict(W=2, NT=1, NP=1, G=2)], safety=('index',), short='PickleKTable._load_pickle_file',
+           doc='the k-table pickle reader: bin centres, temperatures, k-coefficients, weights and quadrature size are the entries bin_centers / t / '
+               'kcoeff / weights / ngauss of the stored dictionary themselves, pressures the entry p converted from bar to pascal, ranges the '
+               'extremes of the grids, the molecule the name entry up to its first underscore (open / pickle.load abstract)')
+
+
+# ------------------------------------------------------------------ PickleCIA._load_pickle_file
+def _pkc_params(c):
+    W, NT = c.int('W'), c.int('NT')
+    return dict(self=ObjSpec('PickleCIA', _spec_dict=None, _wavenumber_grid=None, _temperature_grid=None, _xsec_grid=None),
+                filename='cia/H2-He.db', _file=dict(wno=c.array('wno', (W,)), t=c.array('t', (NT,)), xsecarr=c.array('xs', (NT, W))))
+
+
+def _pkc_post(c, v0, v1, r):
+    f, s = v0._file, v1.self
+    ev = [tuple(e) for e in (c.trace or []) if e[0] in ('open', 'pickle.load')]
+    d = {'reads_the_named_file_once': ev == [('open', v0.filename, 'rb'), ('pickle.load', v0.filename)] if c.mode != 'conc' else True}
+    if c.mode == 'sym':
+        d['wavenumbers_are_the_wno_entry'] = _same_cell(c, v1, '_wavenumber_grid', 'wno')
+        d['temperatures_are_the_t_entry'] = _same_cell(c, v1, '_temperature_grid', 't')
+        d['cross_sections_are_the_xsecarr_entry'] = _same_cell(c, v1, '_xsec_grid', 'xsecarr')
+    else:
+        W, NT = c.Len(f['wno']), c.Len(f['t'])
+        d['wavenumbers_are_the_wno_entry'] = c.And(c.Len(s._wavenumber_grid) == W, c.Forall(0, W, lambda i: s._wavenumber_grid[i] == f['wno'][i]))
+        d['temperatures_are_the_t_entry'] = c.And(c.Len(s._temperature_grid) == NT, c.Forall(0, NT, lambda i: s._temperature_grid[i] == f['t'][i]))
+        d['cross_sections_are_the_xsecarr_entry'] = s._xsec_equal
+    return d
+
+
+def _pkc_native(c, p):
+    import os
+    import pickle
+    import numpy as np
+    from taurex.cia.picklecia import PickleCIA
+    f = p['_file']
+    here = os.path.dirname(os.path.dirname(os.path.abspath(__file__)))
+    base = os.path.join(here, '.cache', 'c14')
+    os.makedirs(os.path.join(base, 'cia'), exist_ok=True)
+    path = os.path.join(base, p['filename'])
+    stored = {k: np.array(v, dtype=float) for k, v in f.items()}
+    with open(path, 'wb') as fh:
+        pickle.dump(stored, fh)
+    try:
+        o = PickleCIA.__new__(PickleCIA)
+        for nm in ('debug', 'info', 'warning', 'error', 'critical'):
+            setattr(o, nm, lambda *a, **k: None)
+        o._load_pickle_file(path)
+    finally:
+        os.remove(path)
+    s = dict(p['self'], _wavenumber_grid=np.asarray(o._wavenumber_grid), _temperature_grid=np.asarray(o._temperature_grid),
+             _xsec_equal=bool(np.array_equal(np.asarray(o._xsec_grid), stored['xsecarr'])))
+    return None, dict(p, self=s)
+
+
+PKC = Unit('C14', 'taurex.cia.picklecia:PickleCIA._load_pickle_file', _pkc_params, post=_pkc_post,
+           abstract={'call:open': _h_open, 'call:load': _h_pickle_load},
+           frame_attrs=[('self', a) for a in ('_spec_dict', '_wavenumber_grid', '_temperature_grid', '_xsec_grid')], native=_pkc_native,
+           gen=lambda rng: (lambda W, NT: dict(W=W, NT=NT, wno=sorted(rng.uniform(10, 9000) for _ in range(W)), t=sorted(rng.uniform(50, 3000) for _ in range(NT)),
+                                               xs=[[10 ** rng.uniform(-50, -40) for _ in range(W)] for _ in range(NT)]))(rng.randint(1, 4), rng.randint(1, 3)),
+           bounds=[dict(W=2, NT=1)], short='PickleCIA._load_pickle_file',
+           doc='the CIA pickle reader: wavenumbers, temperatures and coefficients are the entries wno / t / xsecarr of the stored dictionary '
+               'themselves, no conversion (open / pickle.load abstract)')
+
+
+# ------------------------------------------------------------------ HDF5Opacity._load_hdf_file: the HDF5 reader with its declared pressure unit
+_H5_ATTRS = ('_spec_dict', '_wavenumber_grid', '_temperature_grid', '_pressure_grid', '_xsec_grid', '_resolution', '_molecule_name', '_min_pressure',
+             '_max_pressure', '_min_temperature', '_max_temperature', '_molecular_citation')
+
+
+def _h5_params(c):
+    W, NT, NP = c.int('W'), c.int('NT'), c.int('NP')
+    fx = c.fixed if c.mode != 'conc' else c.values
+    return dict(self=ObjSpec('HDF5Opacity', in_memory=fx['in_memory'], **{a: None for a in _H5_ATTRS}), filename='xsec/H2O.h5',
+                _file=dict(bin_edges=c.array('wno', (W,)), t=c.array('t', (NT,)), p=c.array('p', (NP,)), xsecarr=c.array('xs', (NP, NT, W))),
+                _conv=c.real('conv'))
+
+
+def _h_h5file(ex, st, args, kwargs, node):
+    _ev(st, 'h5py.File', args[0], args[1] if len(args) > 1 else kwargs.get('mode', 'r'))
+    return AbsObj('H5File', args[0], {})
+
+
+def _h5_get(extra):
+    def h(ex, st, o, args, kwargs, node):
+        """file[key]: a dataset of the file, KeyError when the file has none of that name"""
+        key = args[0]
+        fx = ex.c.fixed
+        names = list(st.get(st.env['_file']).items) + list(extra) + (['DOI'] if fx.get('doi') else [])
+        if key not in names:
+            raise _Raise(st, ExcV('KeyError', getattr(node, 'lineno', 0)))
+        attrs = {}
+        if key == 'p':
+            attrs['attrs'] = st.alloc(ex.c, PyDict({'units': fx['unit']}))
+        return AbsObj('H5Dataset', key, attrs)
+    return h
+
+
+_h_h5_get = _h5_get(['mol_name'])
+
+
+def _h_h5_read(ex, st, o, args, kwargs, node):
+    """dataset[:] / dataset[...] / dataset[()]: the stored values"""
+    fx = ex.c.fixed
+    _ev(st, 'read', o.ident)
+    if o.ident == 'mol_name':
+        kind = fx['name_kind']
+        if kind == 'str':
+            return 'H2O'
+        if kind == 'bytes':
+            return AbsObj('bytes', 'H2O', {})
+        return AbsObj('ndarray', 'names', {})
+    if o.ident == 'DOI':
+        return AbsObj('ndarray', 'dois', {})
+    return st.get(st.env['_file']).items[o.ident]
+
+
+def _h_nd_get(ex, st, o, args, kwargs, node):
+    if o.ident == 'names':
+        return AbsObj('bytes', 'H2O', {})
+    return AbsObj('bytes', '10.1000/doi', {})
+
+
+def _h_unit(ex, st, args, kwargs, node):
+    """astropy (observed, 8.0.1): Unit(name) raises ValueError for a name it only knows in the CDS spelling (atm, mmHg);
+    Unit(name, format='cds') accepts it"""
+    fx = ex.c.fixed
+    if fx['unit'] == 'cds-only' and kwargs.get('format') != 'cds':
+        raise _Raise(st, ExcV('ValueError', getattr(node, 'lineno', 0)))
+    return AbsObj('Unit', args[0], {})
+
+
+def _h_unit_to(ex, st, o, args, kwargs, node):
+    _ev(st, 'unit.to', o.ident)
+    return st.env['_conv']
+
+
+def _h5_post(c, v0, v1, r):
+    f, s = v0._file, v1.self
+    fx = c.fixed if c.mode != 'conc' else c.values
+    W, NT, NP = c.Len(f['bin_edges']), c.Len(f['t']), c.Len(f['p'])
+    d = {'wavenumbers_are_the_bin_edges_entry': c.And(c.Len(s._wavenumber_grid) == W, c.Forall(0, W, lambda i: s._wavenumber_grid[i] == f['bin_edges'][i])),
+         'temperatures_are_the_t_entry': c.And(c.Len(s._temperature_grid) == NT, c.Forall(0, NT, lambda i: s._temperature_grid[i] == f['t'][i])),
+         'pressures_are_the_p_entry_converted_from_its_declared_unit_to_pascal':
+             c.And(c.Len(s._pressure_grid) == NP, c.Forall(0, NP, lambda i: c.Eq(s._pressure_grid[i], f['p'][i] * (v1._conv if c.mode == 'conc' else v0._conv)))),
+         'molecule_is_the_mol_name_entry_as_text': s._molecule_name == 'H2O'}
+    if c.mode == 'sym':
+        heap = c.raw['state'].heap
+        ev = [tuple(e) for e in (c.trace or []) if e[0] in ('h5py.File', 'unit.to')]
+        d['opens_the_named_file_for_reading_and_converts_the_declared_unit'] = ev == [('h5py.File', v0.filename, 'r'), ('unit.to', fx['unit'])]
+        closes = [tuple(e) for e in (c.trace or []) if e[0] == 'close']
+        d['file_closed_exactly_when_everything_was_read_into_memory'] = closes == ([('close', v0.filename)] if fx['in_memory'] else [])
+        xs = c.raw['state'].heap[c.raw['env']['self'].id].attrs['_xsec_grid']
+        if fx['in_memory']:
+            d['cross_sections_are_the_xsecarr_entry'] = heap[xs.id] is heap[heap[c.raw['env']['_file'].id].items['xsecarr'].id]
+        else:
+            d['cross_sections_are_the_xsecarr_dataset_of_that_file'] = isinstance(xs, AbsObj) and (xs.cls, xs.ident) == ('H5Dataset', 'xsecarr')
+        d['ranges_are_the_extremes_of_the_grids'] = c.And(
+            c.Forall(0, NP, lambda i: c.And(s._min_pressure <= s._pressure_grid[i], s._pressure_grid[i] <= s._max_pressure)),
+            c.Forall(0, NT, lambda i: c.And(s._min_temperature <= f['t'][i], f['t'][i] <= s._max_temperature)))
+    else:
+        d['cross_sections_are_the_xsecarr_entry'] = s._xsec_equal
+    return d
+
+
+_H5_UNITS = {'bar': 1e5, 'Pa': 1.0, 'atm': 101325.0, 'mbar': 100.0}
+
+
+def _h5_native(c, p):
+    import os
+    import h5py
+    import numpy as np
+    from taurex.opacity.hdf5opacity import HDF5Opacity
+    fx = c.values
+    f = p['_file']
+    unit = fx['unit'] if fx['unit'] != 'cds-only' else 'atm'
+    here = os.path.dirname(os.path.dirname(os.path.abspath(__file__)))
+    base = os.path.join(here, '.cache', 'c14')
+    os.makedirs(os.path.join(base, 'xsec'), exist_ok=True)
+    path = os.path.join(base, 'xsec', 'H2O_%d.h5' % os.getpid())
+    with h5py.File(path, 'w') as fh:
+        for k, v in f.items():
+            ds = fh.create_dataset(k, data=np.array(v, dtype=float))
+            if k == 'p':
+                ds.attrs['units'] = unit
+        kind = fx['name_kind']
+        if kind == 'array':
+            fh.create_dataset('mol_name', data=np.array([b'H2O']))
+        elif kind == 'bytes':
+            fh.create_dataset('mol_name', data=np.bytes_(b'H2O'))
+        else:
+            fh.create_dataset('mol_name', data='H2O')
+        if fx.get('doi'):
+            fh.create_dataset('DOI', data=np.array([b'10.1000/doi']))
+    try:
+        o = HDF5Opacity.__new__(HDF5Opacity)
+        for nm in ('debug', 'info', 'warning', 'error', 'critical'):
+            setattr(o, nm, lambda *a, **k: None)
+        o.in_memory = fx['in_memory']
+        o._load_hdf_file(path)
+        xs = np.asarray(o._xsec_grid[...])
+        if not fx['in_memory']:
+            o._spec_dict.close()
+    finally:
+        os.remove(path)
+    import astropy.units as u
+    conv = float(u.Unit(unit).to(u.Pa)) if fx['unit'] != 'cds-only' else float(u.Unit(unit, format='cds').to(u.Pa))
+    s = dict(p['self'], _wavenumber_grid=np.asarray(o._wavenumber_grid), _temperature_grid=np.asarray(o._temperature_grid),
+             _pressure_grid=np.asarray(o._pressure_grid), _molecule_name=o._molecule_name,
+             _xsec_equal=bool(np.array_equal(xs, np.array(f['xsecarr'], dtype=float))))
+    return None, dict(p, self=s, _conv=conv)
+
+
+_H5_CASES = [dict(in_memory=m, unit=u_, name_kind=k, doi=d) for m in (True, False) for u_ in ('bar', 'Pa', 'cds-only') for k in ('str', 'bytes', 'array')
+             for d in (False, True)]
+
+
+def _h5_gen(rng):
+    W, NT, NP = rng.randint(2, 4), rng.randint(1, 3), rng.randint(1, 3)
+    return dict(rng.choice(_H5_CASES), W=W, NT=NT, NP=NP, conv=1.0, wno=sorted(rng.uniform(100, 9000) for _ in range(W)),
+                t=sorted(rng.uniform(100, 3000) for _ in range(NT)), p=sorted(10 ** rng.uniform(-6, 2) for _ in range(NP)),
+                xs=[[[10 ** rng.uniform(-30, -18) for _ in range(W)] for _ in range(NT)] for _ in range(NP)])
+
+
+H5O = Unit('C14', 'taurex.opacity.hdf5opacity:HDF5Opacity._load_hdf_file', _h5_params,
+           pre=lambda c, v: {'sizes': c.And(c.Len(v._file['bin_edges']) >= 2, c.Len(v._file['t']) >= 1, c.Len(v._file['p']) >= 1)}, post=_h5_post,
+           cases=_H5_CASES,
+           abstract={'call:File': _h_h5file, 'H5File.__getitem__': _h_h5_get, 'H5Dataset.__getitem__': _h_h5_read, 'ndarray.__getitem__': _h_nd_get,
+                     'call:Unit': _h_unit, 'Unit.to': _h_unit_to, 'H5File.close': lambda ex, st, o, args, kwargs, node: _ev(st, 'close', o.ident), 'bytes.decode': lambda ex, st, o, args, kwargs, node: o.ident,
+                     'call:allocate_as_shared': lambda ex, st, args, kwargs, node: args[0],
+                     'new:GlobalCache': lambda ex, st, args, kwargs, node: AbsObj('GlobalCache', 'g', {}),
+                     'GlobalCache.__getitem__': lambda ex, st, o, args, kwargs, node: True,
+                     'call:doi_to_bibtex': lambda ex, st, args, kwargs, node: None},
+           frame_attrs=[('self', a) for a in _H5_ATTRS], inline=['ensure_string_utf8'], native=_h5_native, gen=_h5_gen,
+           bounds=[dict(W=2, NT=1, NP=1)], safety=('index',), short='HDF5Opacity._load_hdf_file',
+           doc='the HDF5 reader: wavenumbers / temperatures / cross-sections are the datasets bin_edges / t / xsecarr of the file (the dataset '
+               'itself when not in memory), pressures the dataset p multiplied by the conversion of ITS DECLARED unit to pascal (astropy: '
+               'plain or CDS spelling), ranges the extremes of the grids, the molecule the mol_name entry as text whether stored as str, '
+               'bytes or a one-element byte array, with or without a DOI entry (h5py and astropy.units abstract)')
+
+
+# ------------------------------------------------------------------ HDF5KTable._load_pickle_file: the HDF5 k-table reader
+_HK_ATTRS = ('_spec_dict', '_wavenumber_grid', '_ngauss', '_temperature_grid', '_pressure_grid', '_xsec_grid', '_weights', '_min_pressure',
+             '_max_pressure', '_min_temperature', '_max_temperature', '_molecule_name')
+
+
+def _hk_params(c):
+    W, NT, NP, G = c.int('W'), c.int('NT'), c.int('NP'), c.int('G')
+    fx = c.fixed if c.mode != 'conc' else c.values
+    return dict(self=ObjSpec('HDF5KTable', in_memory=fx['in_memory'], **dict({a: None for a in _HK_ATTRS}, _molecule_name='H2O_R100')), filename='ktables/H2O_R100.h5',
+                _file=dict(bin_centers=c.array('wno', (W,)), ngauss=G, t=c.array('t', (NT,)), p=c.array('p', (NP,)),
+                           kcoeff=c.array('ks', (NP, NT, W, G)), weights=c.array('wt', (G,))),
+                _conv=c.real('conv'))
+
+
+def _hk_post(c, v0, v1, r):
+    f, s = v0._file, v1.self
+    fx = c.fixed if c.mode != 'conc' else c.values
+    W, NT, NP, G = c.Len(f['bin_centers']), c.Len(f['t']), c.Len(f['p']), c.Len(f['weights'])
+    conv = v1._conv if c.mode == 'conc' else v0._conv
+    d = {'wavenumbers_are_the_bin_centers_entry': c.And(c.Len(s._wavenumber_grid) == W, c.Forall(0, W, lambda i: s._wavenumber_grid[i] == f['bin_centers'][i])),
+         'temperatures_are_the_t_entry': c.And(c.Len(s._temperature_grid) == NT, c.Forall(0, NT, lambda i: s._temperature_grid[i] == f['t'][i])),
+         'weights_are_the_weights_entry': c.And(c.Len(s._weights) == G, c.Forall(0, G, lambda i: s._weights[i] == f['weights'][i])),
+         'pressures_are_the_p_entry_converted_from_its_declared_unit_to_pascal':
+             c.And(c.Len(s._pressure_grid) == NP, c.Forall(0, NP, lambda i: c.Eq(s._pressure_grid[i], f['p'][i] * conv))),
+         'quadrature_size_is_the_ngauss_entry': c.Eq(s._ngauss, f['ngauss']) if c.mode != 'conc' else s._ngauss == f['ngauss'],
+         'molecule_is_the_name_up_to_the_first_underscore': s._molecule_name == 'H2O'}
+    if c.mode == 'sym':
+        ev = [tuple(e) for e in (c.trace or []) if e[0] in ('h5py.File', 'unit.to')]
+        d['opens_the_named_file_for_reading_and_converts_the_declared_unit'] = ev == [('h5py.File', v0.filename, 'r'), ('unit.to', fx['unit'])]
+        closes = [tuple(e) for e in (c.trace or []) if e[0] == 'close']
+        d['file_closed_exactly_when_everything_was_read_into_memory'] = closes == ([('close', v0.filename)] if fx['in_memory'] else [])
+        xs = c.raw['state'].heap[c.raw['env']['self'].id].attrs['_xsec_grid']
+        if fx['in_memory']:
+            k0 = v0._file['kcoeff']
+            k1 = s._xsec_grid
+            d['coefficients_are_the_kcoeff_entry'] = c.Forall(0, NP, lambda i: c.Forall(0, NT, lambda j: c.Forall(0, W, lambda k: c.Forall(0, G, lambda g: k1[i, j, k, g] == k0[i, j, k, g]))))
+        else:
+            d['coefficients_are_the_kcoeff_dataset_of_that_file'] = isinstance(xs, AbsObj) and (xs.cls, xs.ident) == ('H5Dataset', 'kcoeff')
+        d['ranges_are_the_extremes_of_the_grids'] = c.And(
+            c.Forall(0, NP, lambda i: c.And(s._min_pressure <= s._pressure_grid[i], s._pressure_grid[i] <= s._max_pressure)),
+            c.Forall(0, NT, lambda i: c.And(s._min_temperature <= f['t'][i], f['t'][i] <= s._max_temperature)))
+    else:
+        d['coefficients_are_the_kcoeff_entry'] = s._xsec_equal
+    return d
+
+
+def _hk_native(c, p):
+    import os
+    import h5py
+    import numpy as np
+    from taurex.opacity.ktables.hdfktable import HDF5KTable
+    fx = c.values
+    f = p['_file']
+    unit = fx['unit'] if fx['unit'] != 'cds-only' else 'atm'
+    here = os.path.dirname(os.path.dirname(os.path.abspath(__file__)))
+    base = os.path.join(here, '.cache', 'c14')
+    os.makedirs(os.path.join(base, 'ktables'), exist_ok=True)
+    path = os.path.join(base, 'ktables', 'H2O_R100_%d.h5' % os.getpid())
+    with h5py.File(path, 'w') as fh:
+        for k, v in f.items():
+            ds = fh.create_dataset(k, data=(np.array(v, dtype=float) if isinstance(v, list) else v))
+            if k == 'p':
+                ds.attrs['units'] = unit
+    try:
+        o = HDF5KTable.__new__(HDF5KTable)
+        for nm in ('debug', 'info', 'warning', 'error', 'critical'):
+            setattr(o, nm, lambda *a, **k: None)
+        o.in_memory = fx['in_memory']
+        o._molecule_name = 'H2O_R100'
+        o._load_pickle_file(path)
+        xs = np.asarray(o._xsec_grid[...])
+        if not fx['in_memory']:
+            o._spec_dict.close()
+    finally:
+        os.remove(path)
+    import astropy.units as u
+    conv = float(u.Unit(unit).to(u.Pa)) if fx['unit'] != 'cds-only' else float(u.Unit(unit, format='cds').to(u.Pa))
+    s = dict(p['self'], _wavenumber_grid=np.asarray(o._wavenumber_grid), _temperature_grid=np.asarray(o._temperature_grid),
+             _pressure_grid=np.asarray(o._pressure_grid), _weights=np.asarray(o._weights), _ngauss=int(o._ngauss), _molecule_name=o._molecule_name,
+             _xsec_equal=bool(np.array_equal(xs, np.array(f['kcoeff'], dtype=float))))
+    return None, dict(p, self=s, _conv=conv)
+
+
+_HK_CASES = [dict(in_memory=m, unit=u_) for m in (True, False) for u_ in ('bar', 'Pa', 'cds-only')]
+
+
+def _hk_gen(rng):
+    return dict(_pkk_gen(rng), conv=1.0, **rng.choice(_HK_CASES))
+
+
+def _h_hk_read(ex, st, o, args, kwargs, node):
+    _ev(st, 'read', o.ident)
+    return st.get(st.env['_file']).items[o.ident]
+
+
+H5K = Unit('C14', 'taurex.opacity.ktables.hdfktable:HDF5KTable._load_pickle_file', _hk_params,
+           pre=lambda c, v: {'sizes': c.And(c.Len(v._file['bin_centers']) >= 1, c.Len(v._file['t']) >= 1, c.Len(v._file['p']) >= 1, c.Len(v._file['weights']) >= 1)},
+           post=_hk_post, cases=_HK_CASES,
+           abstract={'call:File': _h_h5file, 'H5File.__getitem__': _h5_get([]), 'H5Dataset.__getitem__': _h_hk_read, 'call:Unit': _h_unit, 'Unit.to': _h_unit_to,
+                     'H5File.close': lambda ex, st, o, args, kwargs, node: _ev(st, 'close', o.ident)},
+           frame_attrs=[('self', a) for a in _HK_ATTRS], inline=['clean_molecule_name', 'moleculeName'], native=_hk_native, gen=_hk_gen,
+           bounds=[dict(W=2, NT=1, NP=1, G=2)], safety=('index',), short='HDF5KTable._load_pickle_file',
+           doc='the HDF5 k-table reader: bin centres / temperatures / weights / k-coefficients / quadrature size are the datasets bin_centers / t / '
+               'weights / kcoeff / ngauss of the file (the kcoeff dataset itself when not in memory), pressures the dataset p multiplied by the '
+               'conversion of its declared unit to pascal (plain or CDS spelling), the file closed exactly when everything was read into memory '
+               '(h5py and astropy.units abstract)')
